@@ -83,5 +83,7 @@ if __name__ == "__main__":
     o = run(json.loads(sys.argv[1]))
     sys.stdout.write("\nOUTCOME " + json.dumps({"labels": o.labels, "violations": [v.to_json() for v in o.violations], "info": o.info}) + "\n")
     sys.stdout.flush()
+    from ..kit import env as envkit
+    envkit.cleanup()
     import os
     os._exit(0)
